@@ -355,7 +355,7 @@ func checkC01(c *Ctx) {
 		}
 	}
 	c.Check(okOn, "C01-R5", "draw:buffering-on-first", p.pos(draw.Pos()), fmt.Sprintf("t.buffering = true dominates all %d emitting calls of draw", len(emitters)))
-	flush := callsIn(draw, func(n string, cc *ssa.CallCommon) bool {
+	isFlush := func(n string, cc *ssa.CallCommon) bool {
 		if n != "(*bytes.Buffer).WriteTo" || len(cc.Args) < 2 {
 			return false
 		}
@@ -372,7 +372,15 @@ func checkC01(c *Ctx) {
 		}
 		r2, _, ok := loadedField(a)
 		return ok && r2.String() == "tcell.tScreen.tty"
-	})
+	}
+	flush := callsIn(draw, isFlush)
+	// … or the same write in a helper of the screen that draw calls for it (`t.flushFrame()`)
+	for _, call := range callsIn(draw, func(_ string, cc *ssa.CallCommon) bool {
+		h := cc.StaticCallee()
+		return h != nil && h.Pkg == p.Tcell && len(h.Blocks) > 0 && recvTypeName(h) == "tcell.tScreen" && len(callsIn(h, isFlush)) == 1
+	}) {
+		flush = append(flush, call)
+	}
 	okFlush := len(flush) == 1
 	if okFlush && bufOn != nil {
 		okFlush = !existsPathAvoiding(bufOn, map[ssa.Instruction]bool{flush[0]: true})
